@@ -122,6 +122,43 @@ theorem C04_fromStr_of_asStr (D : Derive) (_h : D.WF) (hd : D.sem.names.Pairwise
           rw [List.find?_cons]; simp only [hne, decide_false]; exact ih hp.2 e
     rw [this]; simp [hv]
 
+/-- every string that is not a name is rejected -/
+theorem C04_rejects_non_names (D : Derive) (s : Name) (hs : s ∉ D.sem.names) : spec.fromStr D.sem s = none := by
+  cases hx : spec.fromStr D.sem s with
+  | none => rfl
+  | some v => exact absurd ((C04_accepts_exactly_names D s).mp (by rw [hx]; rfl)) hs
+
+/-- with distinct names `as_str` is injective: two variants never print the same -/
+theorem C04_asStr_injective (D : Derive) (h : D.WF) (hd : D.sem.names.Pairwise (· ≠ ·)) (v w : Int) (n : Name)
+    (hv : spec.asStr D.sem v = some n) (hw : spec.asStr D.sem w = some n) : v = w := by
+  have a := C04_fromStr_of_asStr D h hd v n hv
+  have b := C04_fromStr_of_asStr D h hd w n hw
+  rw [a] at b; injection b
+
+/-- when several variants share a name, the one returned is the one with the lowest discriminant —
+a function of the discriminant-to-name map alone, hence the same in every mode -/
+theorem C04_lowest_shared (D : Derive) (h : D.WF) (s : Name) (v : Int) (hf : spec.fromStr D.sem s = some v) :
+    ∀ p ∈ D.sem.items, p.2 = s → v ≤ p.1 := by
+  have hsorted : (D.sem.items.map (·.1)).Pairwise (· < ·) := by
+    have := h.sorted; rw [← D.sem_discs] at this; exact this
+  unfold spec.fromStr at hf
+  cases hx : D.sem.items.find? (fun x => decide (x.2 = s)) with
+  | none => rw [hx] at hf; cases hf
+  | some q =>
+    rw [hx] at hf
+    have hq : q.1 = v := by simpa using hf
+    obtain ⟨_, as, bs, hl, has⟩ := List.find?_eq_some_iff_append.mp hx
+    intro p hp hps
+    rw [hl] at hp hsorted
+    rw [List.map_append, List.map_cons, List.pairwise_append] at hsorted
+    obtain ⟨_, hbs, _⟩ := hsorted
+    rw [List.pairwise_cons] at hbs
+    rcases List.mem_append.mp hp with hpa | hpb
+    · have := has p hpa; simp [hps] at this
+    · rcases List.mem_cons.mp hpb with rfl | hpb'
+      · rw [← hq]; exact Int.le_refl _
+      · rw [← hq]; exact Int.le_of_lt (hbs.1 p.1 (List.mem_map_of_mem hpb'))
+
 /-- non-vacuity: renamed variant, identifier of a renamed variant is rejected, other case is rejected -/
 example : exD1.WF ∧ fromStr exD1 .table [98, 98] = .ok (some (-5)) ∧ fromStr exD1 .table [66] = .ok none
     ∧ fromStr exD1 .match [97] = .ok none ∧ fromStr exD2 .table [67] = .ok (some 255) := by
